@@ -169,17 +169,32 @@ Fixpoint update_loop (fuel : nat) (g dur now last : Z) : option (list Z * Z) :=
     else Some ([], last)
   end.
 
-(* updateLiquidityRewards (method table before the bridge-and-liquidity spork):
-     for { if err := checkAndPerformUpdateEpoch(..); err == TooRecent || len(result) >= MaxEpochsPerUpdate { return result } ... }
-   checkAndPerformUpdateEpoch has already stored LastEpoch+1 when the second disjunct is evaluated.
+(* updateLiquidityRewards (method table before the bridge-and-liquidity spork), after fix a732e8e:
+     for { if len(result) >= MaxEpochsPerUpdate { return result }
+           if err := checkAndPerformUpdateEpoch(..); err == TooRecent { return result } ... }
    nres = len(result) (two mint blocks per rewarded epoch). *)
 Fixpoint liquidity_loop (fuel : nat) (g dur now last nres : Z) : option (list Z * Z) :=
   match fuel with
   | O => None
   | S k =>
+    if MaxEpochsPerUpdate <=? nres then Some ([], last)
+    else if negb (update_due g dur now last) then Some ([], last)
+    else match liquidity_loop k g dur now (wrapS 64 (last + 1)) (nres + 2) with
+         | Some (es, l') => Some (wrapS 64 (last + 1) :: es, l')
+         | None => None
+         end
+  end.
+
+(* the loop before the fix, kept as a record of the finding:
+     if err := checkAndPerformUpdateEpoch(..); err == TooRecent || len(result) >= MaxEpochsPerUpdate { return result }
+   checkAndPerformUpdateEpoch had already stored LastEpoch+1 when the second disjunct was evaluated. *)
+Fixpoint liquidity_loop_old (fuel : nat) (g dur now last nres : Z) : option (list Z * Z) :=
+  match fuel with
+  | O => None
+  | S k =>
     if negb (update_due g dur now last) then Some ([], last)
     else if MaxEpochsPerUpdate <=? nres then Some ([], wrapS 64 (last + 1))
-    else match liquidity_loop k g dur now (wrapS 64 (last + 1)) (nres + 2) with
+    else match liquidity_loop_old k g dur now (wrapS 64 (last + 1)) (nres + 2) with
          | Some (es, l') => Some (wrapS 64 (last + 1) :: es, l')
          | None => None
          end
